@@ -254,6 +254,66 @@ example : ∃ (rf : Array Range) (b : Buf), Tiles rf 0xFFFFFFFF ∧ 1 < rf.size 
       | 0, _, h => simp at h; subst h; decide
       | 1, _, h => simp at h; subst h; decide⟩
 
+/-! ## the walk that finds the feature range of a cluster (`drive` and the non-contextual subtable) -/
+
+/-- **C17_range_walk_inclusive.** The block "find the range of this cluster" — the code's two loops
+    `while cluster < range_flags[range].cluster_first { range -= 1 }` and
+    `while cluster > range_flags[range].cluster_last { range += 1 }`, run from whatever range the loop remembers (`lr`) —
+    on every range list that tiles `[0, hi]` (what `compile` produces, `hi = u32::MAX`) and for every cluster `c ≤ hi`:
+    it does not index past either end of the list, and it returns THE range with `cluster_first ≤ c ≤ cluster_last`
+    (both bounds inclusive; the index is the only one whose range contains `c`). -/
+theorem C17_range_walk_inclusive (rf : Array Range) (hi : Nat) (ht : Tiles rf hi) (c : Nat) (hc : c ≤ hi)
+    (lr : Nat) (hlr : lr < rf.size) :
+    ∃ (k : Nat) (r : Range), findRange rf lr c = .ok k ∧ k < rf.size ∧ rf[k]? = some r ∧ r.first ≤ c ∧ c ≤ r.last ∧
+      ∀ (k' : Nat) (r' : Range), rf[k']? = some r' → r'.first ≤ c → c ≤ r'.last → k' = k := by
+  obtain ⟨k, ek, hk, hkc⟩ := findRange_spec ht c hc lr hlr
+  have hr : rf[k]? = some rf[k] := by simp [hk]
+  obtain ⟨h1, h2⟩ := hkc rf[k] hr
+  refine ⟨k, rf[k], ek, hk, hr, h1, h2, ?_⟩
+  intro k' r' hr' h1' h2'
+  exact tiles_unique ht c k' k r' rf[k] hr' hr ⟨h1', h2'⟩ ⟨h1, h2⟩
+
+/-- **C17_range_walk_boundaries.** The boundary clusters of every range belong to that range: for the range at index `k`,
+    the walk started anywhere answers `k` for `cluster_first` and for `cluster_last` (an exclusive reading of `cluster_last`
+    would answer `k + 1`); and the greatest cluster `hi` (= `u32::MAX` = `HB_FEATURE_GLOBAL_END`) is answered by the last
+    index of the list, never by one past it. -/
+theorem C17_range_walk_boundaries (rf : Array Range) (hi : Nat) (ht : Tiles rf hi) (lr : Nat) (hlr : lr < rf.size) :
+    (∀ (k : Nat) (r : Range), rf[k]? = some r → r.last ≤ hi →
+        findRange rf lr r.first = .ok k ∧ findRange rf lr r.last = .ok k) ∧
+    findRange rf lr hi = .ok (rf.size - 1) := by
+  constructor
+  · intro k r hr hle
+    have ho := ht.ordered k r hr
+    constructor
+    · obtain ⟨k0, r0, e, _, _, _, _, hu⟩ := C17_range_walk_inclusive rf hi ht r.first (by omega) lr hlr
+      rw [e, hu k r hr (Nat.le_refl _) ho]
+    · obtain ⟨k0, r0, e, _, _, _, _, hu⟩ := C17_range_walk_inclusive rf hi ht r.last hle lr hlr
+      rw [e, hu k r hr ho (Nat.le_refl _)]
+  · obtain ⟨k0, r0, e, _, _, _, _, hu⟩ := C17_range_walk_inclusive rf hi ht hi (Nat.le_refl _) lr hlr
+    have hn := ht.nonempty
+    have hl : rf[rf.size - 1]? = some rf[rf.size - 1] := by simp
+    have hlast := ht.lastHi _ hl
+    have ho := ht.ordered _ _ hl
+    rw [e, hu (rf.size - 1) _ hl (by omega) (by omega)]
+
+/-- **C17_range_block_total.** The range block at the top of every iteration of `drive` (the copy of the walk the state-table
+    subtables use): for a tiling range list, a remembered range inside the list and a current glyph whose cluster is at most
+    `hi`, it does not fail, it answers "switched off" exactly when the range containing the glyph's cluster has
+    `flags & subtable_flags = 0`, and the range it remembers for the next iteration is again inside the list. -/
+theorem C17_range_block_total (rf : Array Range) (hi : Nat) (ht : Tiles rf hi) (sf : Nat) (b : Buf) (lr : Nat)
+    (hlr : lr < rf.size) (hlt : b.idx < b.len) (hsz : b.len ≤ b.info.size)
+    (hc : (b.info[b.idx]'(by omega)).cl ≤ hi) :
+    ∃ k, k < rf.size ∧
+      rangeBlock rf sf b (some lr) = .ok (!enabledAt rf sf (b.info[b.idx]'(by omega)).cl, some k) :=
+  rangeBlock_off ht sf b lr hlr hlt hsz hc
+
+/-- non-vacuity and the boundary values on concrete lists: a glyph on `cluster_last` of the middle range stays in the middle
+    range, `u32::MAX` is answered by the last range, from every remembered range. -/
+example : findRange #[⟨0, 0, 1⟩, ⟨1, 2, 4⟩, ⟨0, 5, 0xFFFFFFFF⟩] 0 4 = .ok 1 ∧
+    findRange #[⟨0, 0, 1⟩, ⟨1, 2, 4⟩, ⟨0, 5, 0xFFFFFFFF⟩] 2 4 = .ok 1 ∧
+    findRange #[⟨0, 0, 1⟩, ⟨1, 2, 4⟩, ⟨0, 5, 0xFFFFFFFF⟩] 0 0xFFFFFFFF = .ok 2 ∧
+    findRange #[⟨0, 0, 1⟩, ⟨1, 2, 4⟩, ⟨0, 5, 0xFFFFFFFF⟩] 2 0 = .ok 0 := by decide
+
 /-! ## a subtable switched off on a stretch of the text (ranged user features) -/
 
 /-- **C17_drive_restarts_after_off_range** (every state-table subtable type: any machine `m`, any driver context `c` —
